@@ -13,6 +13,7 @@ import (
 	"regexp"
 	"strings"
 	"sync"
+	"sync/atomic"
 	"time"
 )
 
@@ -56,7 +57,7 @@ type TargetStateConsumer interface {
 
 type inflightRequest struct {
 	cancel   context.CancelCauseFunc
-	hijacked bool
+	hijacked atomic.Bool
 }
 
 type inflightMap map[*http.Request]*inflightRequest
@@ -191,7 +192,7 @@ func (t *Target) Drain(timeout time.Duration) {
 
 	// Cancel any hijacked requests immediately, as they may be long-running.
 	for _, inflight := range toCancel {
-		if inflight.hijacked {
+		if inflight.hijacked.Load() {
 			inflight.cancel(ErrorDraining)
 		}
 	}
@@ -493,7 +494,7 @@ func (r *targetResponseWriter) Hijack() (net.Conn, *bufio.ReadWriter, error) {
 		return nil, nil, errors.New("ResponseWriter does not implement http.Hijacker")
 	}
 
-	r.inflightRequest.hijacked = true
+	r.inflightRequest.hijacked.Store(true)
 	verifEvent("hijacked", r.inflightRequest)
 	return hijacker.Hijack()
 }
